@@ -232,14 +232,15 @@ PROPS = {
     },
     "C15": {
         "kani": [],
-        "verus": ["H"],
+        "verus": ["H", "D"],
         "trusted_base": ["Verus 0.2026.09.13 + Z3 (unit H: extracted From<HttpResponse> for ResponseAsync, Response::new)"],
         "assumptions": [
             "http-types is third-party: Response::new(status) PANICS for a status code its StatusCode enum has no name for (assumed precondition known_status, read off http-types 2.12 response.rs:63), set_body/append_header record what they are given, body_bytes reads the body to its end and leaves status/headers/version alone, is_client_error = 400..=499, is_server_error = 500..=599",
             "rule X17 (synchronous projection) as for C16",
+            "unit D: encoding_rs::Encoding::for_label / decode are uninterpreted; borrowed text returned by decode IS the input read as UTF-8 (encoding_rs's documented guarantee, which the body's unsafe from_utf8_unchecked relies on); String::from_utf8 / <[u8]>::is_ascii as assumed specs (only so that a changed body stays within reach)",
         ],
         "not_decided": [
-            "body expectations (string with charset, JSON): decode_body / body_json delegate to encoding_rs and serde_json",
+            "body expectations: decode_body (the default `encoding` build on native targets) is proved to decode with exactly the encoding the declared charset names (UTF-8 by default), to turn an unknown charset or a malformed body into an error value and to hand on exactly the decoder's text (unit D; encoding_rs uninterpreted; the other two cfg variants of decode_body and body_json / serde_json are not decided)",
             "capability API: RequestBuilder::send is proved to send the request once, call the event constructor once, send one outcome event and pass a chain error through unchanged; that the success outcome IS Response::new(..).and_then(decode) composed is proved only piecewise (Response::new's contract, the decode closure's contract, Result::and_then assumed), not as one equation",
             "command API: the lifted task of build() is proved to ask the shell once and to pass a shell error through unchanged; the success arm as above",
         ],
